@@ -60,6 +60,14 @@ kani_unit("crypto_rp64", "winter-crypto", "crypto/src/hash/rescue/rp64_256/mod.r
       bounded="byte strings of length %d (content symbolic)" % L, timeout=900)
     for L in (0, 1, 7, 8, 56, 57, 63)
 ] + [
+    H("rp64_hash_elements_len%d_bounded" % L, ["C11"], ["Rp64_256::hash_elements"],
+      "hash_elements == the documented sponge written independently in the harness (capacity word 0 = number of residues, rate words 4..11 absorbed by addition, permutation after every 8 residues and once for a partial block, digest = words 4..7)",
+      bounded="lists of %d base-field elements (values symbolic)" % L, timeout=900)
+    for L in (0, 1, 7, 8, 9, 16, 17)
+] + [
+    H("rp64_hash_elements_extension_typing_bounded", ["C11"], ["Rp64_256::hash_elements", "FieldElement::slice_as_base_elements (quadratic, cubic over f64)"],
+      "hashing 3 quadratic / 2 cubic extension elements / one quadratic element with zero tail == the documented sponge over the flattened residues (no dependence on base versus extension typing)",
+      bounded="6 symbolic residues", timeout=900),
     H("rp64_merge_is_hash_of_concatenation_contract", ["C11"], ["Rp64_256::merge", "Rp64_256::hash_elements"],
       "forall digests a, b: merge([a, b]) == hash_elements(a || b)", timeout=900),
     H("rp64_merge_with_int_contract", ["C11"], ["Rp64_256::merge_with_int"],
